@@ -22,7 +22,7 @@ type RegOp struct {
 	Kind     string   `json:"kind"`               // regsvc | regconn | drop
 	Target   string   `json:"target"`             // local | b1 | b2 | b3 | ghost (a connection the mux has never seen)
 	Service  string   `json:"service,omitempty"`  // regsvc: the local service
-	Adv      []string `json:"adv,omitempty"`      // regconn: set the backend's advertised services first (nil: unchanged)
+	Adv      []string `json:"adv"`                // regconn: set the backend's advertised services first (nil: unchanged)
 	Fail     string   `json:"fail,omitempty"`     // regconn: "" | dead | refl:<j> | cancel
 }
 
